@@ -472,6 +472,21 @@ func (m *ModSpec) ResolveAt(fx *FnExec, pkg *types.Package, names []string, argV
 		switch {
 		case it == "*":
 			ms.All = true
+		case strings.HasPrefix(it, "bigval(") && strings.HasSuffix(it, ")"):
+			// the mathematical value of the *big.Int parameter named, and of no other big.Int
+			registerHeapKey("BigVal", ArraySort(SInt, SInt))
+			pname := it[7 : len(it)-1]
+			idx := -1
+			for i, n := range names {
+				if n == pname {
+					idx = i
+				}
+			}
+			if idx < 0 || args == nil || idx >= len(args) {
+				ms.Add("BigVal")
+				continue
+			}
+			ms.At = append(ms.At, AtMod{Key: "BigVal", Idx: args[idx]})
 		case strings.HasPrefix(it, "obj(") && strings.HasSuffix(it, ")"):
 			pname := it[4 : len(it)-1]
 			idx := -1
